@@ -42,8 +42,12 @@ func (s *Session) PackageFiles(g *GenOutput, withServer, withClient bool) (map[s
 	for n, c := range g.PB.Files {
 		files[n] = c
 	}
-	if withServer {
-		r := g.Results["go-http"]
+	// Same-named codec files are emitted by both Go plugins (C14: identical apart from the header
+	// line; the byte comparison is C04's and C14's parity family).  Where both exist the SERVER
+	// plugin's file is the one compiled, so that the server-side properties (C04, C05, C06, ...) observe
+	// protoc-gen-go-http's emitters; client-only packages (C14) observe protoc-gen-go-client's.
+	if withClient {
+		r := g.Results["go-client"]
 		if r.Exit != "ok" {
 			return nil, false
 		}
@@ -51,8 +55,8 @@ func (s *Session) PackageFiles(g *GenOutput, withServer, withClient bool) (map[s
 			files[n] = c
 		}
 	}
-	if withClient {
-		r := g.Results["go-client"]
+	if withServer {
+		r := g.Results["go-http"]
 		if r.Exit != "ok" {
 			return nil, false
 		}
